@@ -324,7 +324,7 @@ pub fn run(ctx: &mut Ctx) {
     ctx.check::<LCase>(
         "world",
         "programs of 4..50 world ops (dials with/without peer id, swarm-to-swarm connects, phantom inbound connections, transport outcomes ok/err/wrong peer, closes, disconnects, remote close, muxer fault, bypass_peer_id/remove_peer_id, generated schedules) over 1..3 swarms whose behaviour is #[derive(NetworkBehaviour)] {connection_limits, probe} in both field orders; per node six limits each None or 0..3 and an initial bypass set; after every poll return / API call the six counts (event-history fold and network_info, bypassed connections ignored) are <= the limits; non-trivial = at least one connection was denied by the limits behaviour; distinct by case hash",
-        ctx.n(40_000, 1_200_000),
+        ctx.n(60_000, 2_000_000),
         &move || strategy(max_ops),
         &check,
     );
